@@ -100,30 +100,6 @@ func progDump(p *parser.Program) string {
 	return vh.DumpTree(p, true) + "\x00" + vh.DumpCode(p) + "\x00" + p.String() + "\x00" + varTables(p)
 }
 
-// G19-1 (known finding): Compile fills nativeFuncNames from IterFuncs, which also yields the AWK functions, whose indexes collide
-// with the native ones; the name Disassemble prints for a CallNative operand then depends on map order. The class: the program has
-// at least one AWK function and at least one native function, and the two disassemblies differ only in the operand name of
-// CallNative lines.
-func classifyDisasmDiff(a, b string, nAwkFuncs, nNatives int) string {
-	if nAwkFuncs == 0 || nNatives == 0 {
-		return ""
-	}
-	la, lb := strings.Split(a, "\n"), strings.Split(b, "\n")
-	if len(la) != len(lb) {
-		return ""
-	}
-	for i := range la {
-		if la[i] == lb[i] {
-			continue
-		}
-		fa, fb := strings.Fields(la[i]), strings.Fields(lb[i])
-		if len(fa) != 4 || len(fb) != 4 || fa[1] != "CallNative" || fb[1] != "CallNative" || fa[0] != fb[0] || fa[3] != fb[3] {
-			return ""
-		}
-	}
-	return "G19-1"
-}
-
 type c19Case struct {
 	Kind    string   `json:"kind"`
 	Src     string   `json:"src"`
@@ -169,7 +145,8 @@ func corpusSources(c *vh.Ctx) []source {
 	add("multi-error-main", "BEGIN { x[1]; x = 1; y = 1; y[1] }\nfunction f(a) { a[1]; a = 2 }\nEND { z = 1; z[2] }\n")
 	add("multi-error-pass", "function f(a) { a[1] }\nfunction g(b) { b = 1 }\nBEGIN { f(x); g(x); f(y); g(y) }\n")
 	add("multi-error-expr", "function f(a) { a[1] }\nfunction g(a) { a[1] }\nBEGIN { g(1); f(2) }\n")
-	// G19-1 witness (recorded): natives and AWK functions together
+	// G19-1 (fixed): natives and AWK functions together — the disassembly must be byte-identical and name the native
+	add("g19-1-witness", "function f(a) { return a }\nBEGIN { print f(1), nat1(2, 3) }\n", "nat1")
 	add("natives+awk", "function f(a) { return a+1 }\nfunction g(a) { return nat1(a, 1) + abc(a) }\nBEGIN { print f(1), g(2), nat2(3, 4), abc(4), zed(\"s\") }\n", "nat1", "nat2", "abc", "zed")
 	add("natives-only", "BEGIN { print nat1(1, 2), nat2(3, 4), abc(4), zed(\"s\") }\n", "nat1", "nat2", "abc", "zed")
 	// many globals (Appendix C: "globals indexed in map order instead of sorted")
@@ -496,7 +473,6 @@ func runC19(c *vh.Ctx) {
 		o.first = parseSrc(s.src, funcs)
 		o.fp = fingerprintOf(o.first)
 		seen := map[fingerprint]bool{o.fp: true}
-		nAwk := strings.Count(s.src, "function ")
 		for k := 1; k < s.repeats; k++ {
 			fp := fingerprintOf(parseSrc(s.src, funcs))
 			if seen[fp] {
@@ -510,7 +486,7 @@ func runC19(c *vh.Ctx) {
 			case fp.rest != o.fp.rest:
 				o.diffs = append(o.diffs, vh.Failure{Kind: "oracle", What: "two parses of one source give different trees / type tables / compiled code", Case: cs})
 			default:
-				o.diffs = append(o.diffs, vh.Failure{Kind: "oracle", What: "two parses of one source disassemble differently", Finding: classifyDisasmDiff(fp.disasm, o.fp.disasm, nAwk, len(s.natives)),
+				o.diffs = append(o.diffs, vh.Failure{Kind: "oracle", What: "two parses of one source disassemble differently",
 					Case: cs, Got: diffLine(fp.disasm, o.fp.disasm), Want: "byte-equal disassembly"})
 			}
 		}
@@ -534,6 +510,19 @@ func runC19(c *vh.Ctx) {
 		}
 		for _, f := range o.diffs {
 			c.Fail(f)
+		}
+		// the disassembly names a native function in every CallNative operand (regression of the repaired G19-1)
+		if o.first.ok && len(s.natives) > 0 {
+			for _, ln := range strings.Split(o.fp.disasm, "\n") {
+				fs := strings.Fields(ln)
+				if len(fs) == 4 && fs[1] == "CallNative" {
+					if _, ok := nativeFuncs[fs[2]]; !ok {
+						c.Fail(vh.Failure{Kind: "oracle", What: "Disassemble names a function that is not native in a CallNative operand",
+							Case: c19Case{Kind: s.kind, Src: s.src, Natives: s.natives}, Got: ln})
+						break
+					}
+				}
+			}
 		}
 	}
 
